@@ -21,6 +21,7 @@ EXPLANATION = (
     'only on the path that linked / unlinked the node.  Linearizability and absence of loss across lazy rehash for all hash '
     'functions are NOT decided.')
 EXPLANATION += ' Added after the seeded-change rounds: ' + 'D1 also: after a bucket-lock upgrade that released the lock, every pointer the chain mutation uses (node, predecessor) is recomputed on every path before the mutation.'
+EXPLANATION += ' Added in the third session (round-3 seeds and the findings they led to): ' + 'D3 also: the element lock is waited for outside the bucket lock scope (anchored on the acquisition) and, class-wide, no blocking element-lock acquisition happens while a bucket lock is held.'
 ASSUMPTIONS = ['instantiations: concurrent_hash_map<int,int> and <string,string> (explicit instantiation)', 'rw scoped lock model']
 ND = ['linearizability of the map operations', 'no loss across lazy rehash for all hash functions / growth schedules']
 
